@@ -96,7 +96,7 @@ fn check(s: &str, case: &str, rep: &mut Report, enumerated: bool) {
     };
     match verdict {
         None => {
-            if nontrivial && rep.samples.len() < 6 && (rep.evaluations % 97 == 0 || rep.samples.is_empty()) {
+            if rep.samples.is_empty() || (nontrivial && rep.samples.len() < 6 && rep.evaluations % 97 == 0) {
                 rep.sample(J::obj(vec![("format", J::s(s)), ("elements", J::s(format!("{:?}", got)))]));
             }
         }
@@ -118,7 +118,7 @@ fn classify(s: &str, want: &[FormatElement], got: &[FormatElement]) -> &'static 
 }
 
 pub fn run(ctx: &Ctx, rep: &mut Report) {
-    let max_len: u32 = if ctx.tier_thorough { 5 } else { 4 };
+    let max_len: u32 = if ctx.tier_thorough { 6 } else { 4 };
     let mut total = 0u64;
     for l in 1..=max_len {
         total += 16u64.pow(l);
@@ -161,7 +161,7 @@ pub fn run(ctx: &Ctx, rep: &mut Report) {
         check(&s, &format!("pairs:{}", i), rep, false);
     });
     let wide: Vec<char> = WIDE.chars().collect();
-    let n_rand = ctx.pick(30_000, 1_000_000);
+    let n_rand = ctx.pick(30_000, 5_000_000);
     par_cases(ctx, "random", n_rand, rep, |i, rep| {
         let mut r = Rng::for_case(ctx.seed, "random", i);
         let len = 1 + r.usize(60);
